@@ -348,6 +348,7 @@ def run(ctx, tier, seed, shard, nshards):
     core.run_hypothesis(test, seed, n)
     if shard == 0:
         directed(ctx)
+        private_attribute_cases(ctx)
 
 
 def directed(ctx, only=None):
@@ -363,7 +364,23 @@ def directed(ctx, only=None):
                              "inputs": inputs, "directed": i})
 
 
+def private_attribute_cases(ctx):
+    """Values of private attributes (mangled by the compiler) in the message: the cells of C07's scope family that check
+    the value lines."""
+    from vf.props import c07
+
+    for name in ("pay/over-limit", "two-classes", "suffix", "comprehension", "sub-class-instance", "base-contract-on-sub-class"):
+        c07.scope_cases(ctx, only="private attribute/%s" % name)
+
+
 def replay(ctx, case):
+    if case.get("scope_case"):
+        from vf.props import c07
+
+        before = ctx.evaluations
+        c07.scope_cases(ctx, only=case["scope_case"])
+        ctx.evaluations = before + 1
+        return
     if "directed_index" in case:
         return directed(ctx, only=case["directed_index"])
     check_case(ctx, case)
